@@ -298,10 +298,25 @@ func (h coreHandler) HandleOperation(ctx context.Context, req kmip.OperationPayl
 	return &payloads.ActivateResponsePayload{UniqueIdentifier: "core"}, nil
 }
 
-func newSrvSys(rec *recorder, chain []string, item bool) system {
+// late: the chain is registered while the executor is already serving: one request is handled before the first and after every
+// registration (the chain a request runs through is the one registered at that moment, whatever was served before)
+func newSrvSys(rec *recorder, chain []string, item bool, late ...bool) system {
 	ex := kmipserver.NewBatchExecutor()
 	ex.Route(kmip.OperationActivate, coreHandler{rec})
+	warm := func() {
+		if len(late) > 0 && late[0] {
+			func() {
+				defer func() { _ = recover() }()
+				ex.HandleRequest(context.Background(), reqMsg(0, 0))
+			}()
+		}
+	}
+	warm()
+	defer warm()
 	for i, p := range chain {
+		if i > 0 {
+			warm()
+		}
 		s, prog := i+1, progs[p]
 		if item {
 			ex.BatchItemUse(func(next kmipserver.BatchItemNext, ctx context.Context, bi *kmip.RequestBatchItem) (*kmip.ResponseBatchItem, error) {
@@ -335,6 +350,10 @@ func build(rec *recorder, kind string, chain []string) (system, error) {
 		return newSrvSys(rec, chain, false), nil
 	case "srvitem":
 		return newSrvSys(rec, chain, true), nil
+	case "srvmsg-late":
+		return newSrvSys(rec, chain, false, true), nil
+	case "srvitem-late":
+		return newSrvSys(rec, chain, true, true), nil
 	}
 	return nil, errors.New("unknown kind")
 }
@@ -349,7 +368,7 @@ type kindVariant struct {
 // every chain runs on the three real chains; chains that derive contexts additionally run on the two
 // server chains with derived contexts that are already cancelled
 func kindVariants(chain []string) []kindVariant {
-	kv := []kindVariant{{"client", false}, {"srvmsg", false}, {"srvitem", false}}
+	kv := []kindVariant{{"client", false}, {"srvmsg", false}, {"srvitem", false}, {"srvmsg-late", false}, {"srvitem-late", false}}
 	for _, p := range chain {
 		if p == "newctx" || p == "thrice" {
 			return append(kv, kindVariant{"srvmsg", true}, kindVariant{"srvitem", true})
